@@ -293,7 +293,7 @@ fn range_loops() {
 
 // ------------------------------------------------------------------------------------------------
 // wrapper over an arbitrary Iterator (ConIterOfIter<usize, Probe>), exact / inexact / unbounded hints
-// @verif family=SEQ quick=C03,C04,C05,C10,C11,C09 thorough=C01,C02,C17 timeout=900
+// @verif family=SEQ quick=C03,C04,C05,C10,C11 thorough=C01,C02,C17,C09 timeout=900
 // @bounds kind=ConIterOfIter<usize,Probe> len<=3, size_hint in {exact,inexact,unbounded}; prefix<=3 next(); next_chunk(n<=len+2) consuming j; one of single/len query; end in {drop, into_seq_iter all/partly}
 #[kani::proof]
 #[kani::unwind(7)]
@@ -301,7 +301,7 @@ fn iter_chunk() {
     go_iter(3, 3, S_CHUNK, E_ALL, wit_chunk);
 }
 
-// @verif family=SEQ quick=C03,C04,C05,C10,C11,C09 thorough=C01,C02,C17 timeout=900
+// @verif family=SEQ quick=C03,C04,C05,C10,C11 thorough=C01,C02,C17,C09 timeout=900
 // @bounds kind=ConIterOfIter<usize,Probe> len<=3, all size hints; prefix<=3 next(); buffered_iter(2) 1-2 pulls partly consumed (stale buffer slots); one of single/len query; end in {drop, into_seq_iter all/partly}
 #[kani::proof]
 #[kani::unwind(7)]
@@ -317,7 +317,7 @@ fn iter_buf3() {
     go_iter_n(3, 3, S_BUF, E_ALL, wit_buf, 3);
 }
 
-// @verif family=SEQ quick=C06,C09 thorough=C10,C11 timeout=900
+// @verif family=SEQ quick=C06 thorough=C10,C11,C09 timeout=900
 // @bounds kind=ConIterOfIter<usize,Probe> len<=2, all size hints; prefix<=2 next(); skip_to_end; 4 steps of single pulls / len queries / one chunk pull (enough pulls for the reserved counter to come back to the yielded count); end in {drop, into_seq_iter all/partly}
 #[kani::proof]
 #[kani::unwind(6)]
@@ -441,4 +441,48 @@ fn iter_long() {
 #[kani::unwind(7)]
 fn vec_long() {
     go_vec(3, 3, S_LONG, E_ALL, wit_some);
+}
+
+// ------------------------------------------------------------------------------------------------
+// C09 on the wrapper, single-threaded: with the memory-backed hook every atomic access is counted; an
+// operation that performs more than 12 loads in a row without any write is spinning on a memory that
+// nobody else can change (there is no other thread): it would wait forever. (The plain harnesses above see
+// the same defect only as a failed unwinding assertion, which has no concrete input to replay.)
+#[cfg(orx_concurrent_iter_verif)]
+fn spin_guard() {
+    crate::hook::link();
+    unsafe {
+        crate::hook::VH_SPIN_LIMIT = 12;
+        crate::hook::VH_LOG_OFF = true;
+    }
+}
+
+// @verif family=SEQ hook=1 quick=C09 thorough=C05 timeout=900 owner=C09
+// @bounds kind=ConIterOfIter<usize,Probe> len<=3, all size hints; prefix<=3 next(); next_chunk(n<=len+2) consuming j; single/len query; end in {drop, into_seq_iter all/partly}; spin detection: >12 consecutive loads
+#[cfg(orx_concurrent_iter_verif)]
+#[kani::proof]
+#[kani::unwind(9)]
+fn iterh_chunk() {
+    spin_guard();
+    go_iter(3, 3, S_CHUNK, E_ALL, wit_chunk);
+}
+
+// @verif family=SEQ hook=1 quick=C09 thorough=C05 timeout=900 owner=C09
+// @bounds kind=ConIterOfIter<usize,Probe> len<=3, all size hints; prefix<=3 next(); buffered_iter(2) 1-2 pulls partly consumed; single/len query; end in {drop, into_seq_iter all/partly}; spin detection
+#[cfg(orx_concurrent_iter_verif)]
+#[kani::proof]
+#[kani::unwind(9)]
+fn iterh_buf() {
+    spin_guard();
+    go_iter_n(3, 3, S_BUF, E_ALL, wit_buf, 2);
+}
+
+// @verif family=SEQ hook=1 quick=C09 thorough=C06 timeout=900 owner=C09
+// @bounds kind=ConIterOfIter<usize,Probe> len<=2, all size hints; prefix<=2 next(); skip_to_end; 4 more steps of single pulls / len queries / one chunk pull; end in {drop, into_seq_iter all/partly}; spin detection
+#[cfg(orx_concurrent_iter_verif)]
+#[kani::proof]
+#[kani::unwind(9)]
+fn iterh_skip() {
+    spin_guard();
+    go_iter(2, 2, S_SKIP_LONG, E_ALL, wit_skip);
 }
